@@ -279,6 +279,12 @@ def judge(ctx, case):
                         ctx.ev()
                         if "ok" in p2:
                             ctx.viol("malformed DER followed by a flag byte accepted: %s" % name, {"der": fb.hex(), "via": via})
+        # bare DER (no flag byte) through SighashSignature::from_bytes: never a signature+flag, whatever its final byte happens to be
+        ctx.hit("der_bad")
+        pb = ctx.call({"op": "sig_from_der", "hex": good.hex(), "via": "sighash"})
+        ctx.ev()
+        if "ok" in pb:
+            ctx.viol("SighashSignature::from_bytes accepts bare DER without a flag byte (%s)" % ("final DER byte equals a sighash flag value" if good[-1] in FLAGS else "final DER byte is not a flag value"), {"hex": good.hex()})
         # DER || flag || flag through SighashSignature::from_bytes: exactly one flag byte may follow the DER part
         for f1 in rnd.sample(FLAGS, 4):
             for f2 in rnd.sample(FLAGS, 2):
